@@ -1,6 +1,6 @@
 SPECIFICATION Spec
 CONSTANTS
-  Families = {"normal", "bernoulli", "weibull"}
+  Families = {"normal", "mixnormal", "bernoulli", "weibull"}
   Censorings = {"censored", "observed"}
   Positions = {"before", "at", "after"}
   Shapes = {"lt1", "eq1", "gt1", "eq3"}
